@@ -574,6 +574,13 @@ def opParagraph (req : Json) : Json :=
   let s : MS := ⟨gsOf req, jnat req "cur", jbool req "excl", false, []⟩
   Json.mkObj [("mk", mkJson (evalParagraph s (jbool req "fwd") (jnat req "count") (jbool req "has_verb")))]
 
+/-- `{"op":"para_obj","blank":[b..],"cur_line":n,"count":n,"around":b}`: `ip`/`ap` as the operator sees them -/
+def opParaObj (req : Json) : Json :=
+  let blank : List Bool := (jarr req "blank").toList.map (fun x => x.getBool?.toOption.getD true)
+  match (PL.mk blank).textObj (jnat req "cur_line") (jnat req "count") (jbool req "around") with
+  | none => Json.mkObj [("mk", mkJson .null)]
+  | some (a, b) => Json.mkObj [("mk", mkJson (.lineRange a b))]
+
 def dispatch (req : Json) : Json :=
   match jstr req "op" with
   | "ping" => Json.mkObj [("pong", true)]
@@ -599,6 +606,7 @@ def dispatch (req : Json) : Json :=
   | "cursor_after" => opCursorAfter req
   | "textobj_word" => opTextObjWord req
   | "paragraph" => opParagraph req
+  | "para_obj" => opParaObj req
   | op => Json.mkObj [("err", Json.str s!"unknown op {op}")]
 
 partial def loop (h : IO.FS.Stream) (out : IO.FS.Stream) : IO Unit := do
